@@ -11,7 +11,7 @@ From Coq Require Import ZArith List Bool Lia ZifyBool.
 From Tickit Require RectDefs RBDefs RBSpec RBWidth RBAbsLemmas RBFlushDefs RBFlushSpec RBTermSim RBFlushShown
   RBFlushReach RBProps FlushPaint RBPenBridge.
 From Tickit Require Import Csi VT TermPenDefs TermPenSpec TermPenProofs XtermDefs XtermSpec XtermProofs
-  TermApiDefs TermApiSpec TermApiProofs Gen_SgrOnOff TermPenC19.
+  TermApiDefs TermApiSpec TermApiProofs Gen_SgrOnOff TermPenC19 VTUtf8.
 Import ListNotations.
 Local Open Scope Z_scope.
 
@@ -39,14 +39,16 @@ Definition api_of_termop (o : FD.termop) : api :=
   match o with
   | FD.TGoto l c => AGoto l c
   | FD.TSetPen p => ASetpen (pen_of_rb p)
-  | FD.TPrint s => APrintn s (Z.of_nat (length s))
+  | FD.TPrint s => APrintn (UB.enc s) (Z.of_nat (length (UB.enc s)))     (* the UTF-8 bytes of the text *)
   | FD.TErase n mv => AErasech n (if mv then MYes else MMaybe)
   end.
-(* what the VT model and the library agree on: printable ASCII (one byte, one column), pens in range *)
+(* what the VT model (with its UTF-8 front end, VTUtf8.v) and the library agree on: code points of width 1
+   (cpw = C07's width: ASCII, Latin-1, box drawing, ... -- not control, not combining, not wide), pens in range *)
+Definition uprintable (c : Z) : bool := RD.cpw c =? 1.
 Definition termop_okb (o : FD.termop) : bool :=
   match o with
   | FD.TSetPen p => rbpen_okb p
-  | FD.TPrint s => forallb printable s
+  | FD.TPrint s => forallb uprintable s
   | _ => true
   end.
 
@@ -105,11 +107,33 @@ Proof.
   rewrite Z2Nat.id in A by lia. replace (32 + (c - 32)) with c in A by lia.
   apply Z.eqb_eq, A, in_seq. lia.
 Qed.
-Lemma printable_narrow : forall u, forallb printable u = true -> TS.narrow u.
+Lemma uprintable_narrow : forall u, forallb uprintable u = true -> TS.narrow u.
 Proof.
-  intros u H c Hc. rewrite forallb_forall in H. specialize (H c Hc). unfold printable in H.
-  apply cpw_ascii. lia.
+  intros u H c Hc. rewrite forallb_forall in H. specialize (H c Hc). unfold uprintable in H. lia.
 Qed.
+(* a width-1 code point is one tickit_utf8_put encodes and C07's decoder accepts; it is no control character *)
+Lemma uprintable_cpok : forall c, uprintable c = true -> cpok c /\ 32 <= c /\ c <> 127.
+Proof.
+  intros c H. unfold uprintable in H.
+  destruct (UB.cpw_ok_spec c ltac:(lia)) as (H1 & H2 & _).
+  split; [exact (conj H1 H2)|]. unfold U8S.bad_cp in H2. lia.
+Qed.
+Lemma uprintable_all : forall u, forallb uprintable u = true ->
+  Forall cpok u /\ forallb (fun b => negb (b =? 127)) u = true.
+Proof.
+  induction u as [|c u IH]; intros H; [split; [constructor|reflexivity]|].
+  cbn [forallb] in H. apply andb_true_iff in H as [Hc Hu]. destruct (IH Hu) as [I1 I2].
+  destruct (uprintable_cpok c Hc) as (C1 & C2 & C3).
+  split; [constructor; assumption|]. cbn [forallb]. rewrite I2. destruct (c =? 127) eqn:E; [lia|reflexivity].
+Qed.
+(* width-1 includes printable ASCII *)
+Lemma printable_uprintable : forall c, printable c = true -> uprintable c = true.
+Proof. intros c H. unfold printable in H. unfold uprintable. rewrite cpw_ascii by lia. reflexivity. Qed.
+
+Lemma text_class : (forall c, printable c = true -> uprintable c = true) /\
+  forallb uprintable [0xA0; 0xE9; 0xFF; 0x2500; 0x2502; 0x250C; 0x253C; 0x256C; 0x2592] = true /\
+  forallb (fun c => negb (uprintable c)) [0x1F; 0x7F; 0x9F; 0x301; 0x4E2D; 0xFF21] = true.
+Proof. split; [exact printable_uprintable|]. split; vm_compute; reflexivity. Qed.
 
 (* ---- the simulation invariant: the driver's terminal object [t] (cached pen = converted logical pen
    [l]), the VT screen [v] (no margins, rendition = the abstract terminal's pen [pn]) *)
@@ -225,12 +249,48 @@ Proof.
   destruct (vt_ok_inv v H) as (HL & HC & _ & _ & _ & _ & Hawm & Hr & Hc). repeat split; assumption || lia.
 Qed.
 
+(* the tokens of goto, set-pen and ECH/CUF contain no graphic bytes: the UTF-8 front end passes them *)
+Lemma goto_nochar : forall l c, nocharb (xt_goto_abs l c) = true.
+Proof.
+  intros l c. unfold xt_goto_abs.
+  repeat match goal with |- context [if ?c then _ else _] => destruct c end; reflexivity.
+Qed.
+Lemma move_rel_nochar : forall d r, nocharb (xt_move_rel d r) = true.
+Proof.
+  intros d r. unfold xt_move_rel.
+  repeat match goal with |- context [if ?c then _ else _] => destruct c end; reflexivity.
+Qed.
+Lemma xterm_chpen_nochar : forall cap colon rgb8 d f ts, xterm_chpen cap colon rgb8 d f = Some ts -> nocharb ts = true.
+Proof.
+  intros cap colon rgb8 d f ts H. unfold xterm_chpen in H.
+  destruct (cap <? _); [discriminate H|]. destruct (chpen_params colon rgb8 d); [inversion H; reflexivity|].
+  destruct (negb (is_nondefault f)); inversion H; reflexivity.
+Qed.
+Local Strategy opaque [term_setpen xterm_chpen chpen_params].
+Lemma setpen_nochar : forall t p t' ts r, api_step t (ASetpen p) = Some (t', ts, r) -> nocharb ts = true.
+Proof.
+  intros t p t' ts r H. cbn [api_step] in H. unfold do_setpen in H.
+  destruct (term_setpen _ _ _) as [[tp' d]|]; [|discriminate H].
+  destruct (xterm_chpen _ _ _ _ _) as [ts0|] eqn:X; [|discriminate H].
+  inversion H; subst. apply (xterm_chpen_nochar _ _ _ _ _ _ X).
+Qed.
+Lemma cpok_space : cpok 32.
+Proof. split; [unfold UB.cp_ok; lia|reflexivity]. Qed.
+Lemma utf8_spaces : forall k rest, utf8_toks (chars (repeat 32 k) ++ rest) = chars (repeat 32 k) ++ utf8_toks rest.
+Proof.
+  intros k rest.
+  assert (E : UB.enc (repeat 32 k) = repeat 32 k).
+  { apply enc_ascii. apply Forall_forall. intros c Hc. apply repeat_spec in Hc. lia. }
+  rewrite <- E at 1. apply utf8_print. apply Forall_forall. intros c Hc. apply repeat_spec in Hc. subst c. exact cpok_space.
+Qed.
+
 Lemma sim_goto : forall colon rgb8 v t l pn lg cg, SimInv colon rgb8 v t l pn ->
   0 <= lg < v_lines v -> 0 <= cg < v_cols v ->
   exists toks, api_step t (AGoto lg cg) = Some (t, toks, Some 1) /\
     SimInv colon rgb8 (vt_run toks v) t l pn /\ cur_rel (vt_run toks v) (Some (lg, cg)) /\
     v_lines (vt_run toks v) = v_lines v /\ v_cols (vt_run toks v) = v_cols v /\
-    forall y x, v_grid (vt_run toks v) y x = v_grid v y x.
+    (forall y x, v_grid (vt_run toks v) y x = v_grid v y x) /\
+    (forall rest, utf8_toks (toks ++ rest) = toks ++ utf8_toks rest).
 Proof.
   intros colon rgb8 v t l pn lg cg (Hok & Hc1 & Hc2 & Hpi & Hsgr) Hl Hc.
   exists (xt_goto_abs lg cg). split; [reflexivity|].
@@ -242,14 +302,16 @@ Proof.
     + split; [exact Hc1|]. split; [exact Hc2|]. split; [apply (PenInv_sgr _ _ _ _ _ v); [reflexivity|exact Hpi]|].
       exact Hsgr.
   - split; [cbn [cur_rel]; vt_unfold; split; [reflexivity|left; repeat split; lia]|].
-    split; [reflexivity|]. split; [reflexivity|]. intros y x. reflexivity.
+    split; [reflexivity|]. split; [reflexivity|]. split; [intros y x; reflexivity|].
+    intros rest. apply utf8_nochar, goto_nochar.
 Qed.
 
 Lemma sim_setpen : forall colon rgb8 v t l pn (p : RD.pen), SimInv colon rgb8 v t l pn -> rbpen_okb p = true ->
   exists t' toks l', api_step t (ASetpen (pen_of_rb p)) = Some (t', toks, None) /\
     SimInv colon rgb8 (vt_run toks v) t' l' (FD.canon_pen p) /\
     v_cur (vt_run toks v) = v_cur v /\ v_lines (vt_run toks v) = v_lines v /\ v_cols (vt_run toks v) = v_cols v /\
-    forall y x, v_grid (vt_run toks v) y x = v_grid v y x.
+    (forall y x, v_grid (vt_run toks v) y x = v_grid v y x) /\
+    (forall rest, utf8_toks (toks ++ rest) = toks ++ utf8_toks rest).
 Proof.
   intros colon rgb8 v t l pn p (Hok & Hc1 & Hc2 & Hpi & Hsgr) Hp.
   pose proof (rbpen_ok_in_range p Hp) as Hpr.
@@ -266,7 +328,8 @@ Proof.
     + rewrite Hset. apply vt_ok_intro; vt_unfold; assumption.
     + split; [exact Hc1|]. split; [exact Hc2|]. split; [rewrite <- Hc1, <- Hc2; exact (conj L1 (conj L2 L3))|].
       exact Hs'.
-  - rewrite Hset. split; [reflexivity|]. split; [reflexivity|]. split; [reflexivity|]. intros y x. reflexivity.
+  - rewrite Hset. split; [reflexivity|]. split; [reflexivity|]. split; [reflexivity|].
+    split; [intros y x; reflexivity|]. intros rest. apply utf8_nochar, (setpen_nochar _ _ _ _ _ Hstep).
 Qed.
 
 Lemma cur_after_print : forall cols c n cv (pv : bool), 0 <= c -> 0 < n -> c + n <= cols ->
@@ -280,7 +343,7 @@ Qed.
 
 (* a non-empty run of printable characters that fits on the line, on the VT *)
 Lemma print_vt : forall colon rgb8 v t l pn (u : list Z) lc c, SimInv colon rgb8 v t l pn ->
-  cur_rel v (Some (lc, c)) -> forallb printable u = true -> 0 <= c -> (0 < length u)%nat ->
+  cur_rel v (Some (lc, c)) -> forallb (fun b => negb (b =? 127)) u = true -> 0 <= c -> (0 < length u)%nat ->
   c + Z.of_nat (length u) <= v_cols v ->
   SimInv colon rgb8 (vt_run (chars u) v) t l pn /\
   cur_rel (vt_run (chars u) v) (Some (lc, c + Z.of_nat (length u))) /\
@@ -300,7 +363,7 @@ Proof.
     split; [apply (PenInv_sgr _ _ _ _ _ v); [exact E5|exact Hpi]|]. rewrite E5; exact Hsgr. }
   clear Hpi Hsgr Hc1 Hc2.
   cbn [cur_rel] in Hcur. destruct Hcur as (Hrow & [(Hlt & Hcol & Hpend) | (Hge & _)]); [|lia].
-  destruct (chars_run u v Hm Hawm Hpr (or_introl Hpend) ltac:(lia) ltac:(lia)) as (Gf & Grow & Gcur & Gg).
+  destruct (chars_run_g u v Hm Hawm Hpr (or_introl Hpend) ltac:(lia) ltac:(lia)) as (Gf & Grow & Gcur & Gg).
   set (v' := vt_run (chars u) v) in *. clearbody v'.
   destruct Gf as (F1 & F2 & F3 & F4 & F5).
   unfold u in Gcur. fold u in Gcur. clearbody u.
@@ -316,28 +379,39 @@ Proof.
     intros y x. rewrite Hgg2, Hrow, Hcol. reflexivity.
 Qed.
 
+Lemma enc_nonempty : forall c u, (0 < length (UB.enc (c :: u)))%nat.
+Proof.
+  intros c u. unfold UB.enc. cbn [flat_map]. rewrite app_length. unfold Tickit.Utf8Defs.put_bytes.
+  destruct (Tickit.Utf8Defs.put_tail _ _ _). cbn [length]. lia.
+Qed.
+
+(* printn of the UTF-8 bytes of [u]: the front end delivers the code points [u], one cell each *)
 Lemma sim_print : forall colon rgb8 v t l pn (u : list Z) lc c, SimInv colon rgb8 v t l pn ->
-  cur_rel v (Some (lc, c)) -> forallb printable u = true -> 0 <= c -> c + Z.of_nat (length u) <= v_cols v ->
-  exists toks, api_step t (APrintn u (Z.of_nat (length u))) = Some (t, toks, None) /\
-    SimInv colon rgb8 (vt_run toks v) t l pn /\ cur_rel (vt_run toks v) (Some (lc, c + Z.of_nat (length u))) /\
-    v_lines (vt_run toks v) = v_lines v /\ v_cols (vt_run toks v) = v_cols v /\
-    forall y x, v_grid (vt_run toks v) y x =
+  cur_rel v (Some (lc, c)) -> forallb uprintable u = true -> 0 <= c -> c + Z.of_nat (length u) <= v_cols v ->
+  exists toks, api_step t (APrintn (UB.enc u) (Z.of_nat (length (UB.enc u)))) = Some (t, toks, None) /\
+    (forall rest, utf8_toks (toks ++ rest) = chars u ++ utf8_toks rest) /\
+    SimInv colon rgb8 (vt_run (chars u) v) t l pn /\ cur_rel (vt_run (chars u) v) (Some (lc, c + Z.of_nat (length u))) /\
+    v_lines (vt_run (chars u) v) = v_lines v /\ v_cols (vt_run (chars u) v) = v_cols v /\
+    forall y x, v_grid (vt_run (chars u) v) y x =
                 if (y =? lc) && (c <=? x) && (x <? c + Z.of_nat (length u))
                 then mkCell (nth (Z.to_nat (x - c)) u 0) (v_sgr v) else v_grid v y x.
 Proof.
   intros colon rgb8 v t l pn u lc c Hsim Hcur Hpr Hc0 Hfit.
-  destruct (length u) as [|k] eqn:Elen.
+  destruct (uprintable_all u Hpr) as [Hcp Hnd].
+  destruct u as [|c0 u'].
   - (* nothing: the repaired printn returns at once *)
-    apply length_zero_iff_nil in Elen. subst u.
-    exists []. split; [reflexivity|]. rewrite vt_run_nil. cbn [Z.of_nat]. rewrite Z.add_0_r.
+    exists []. split; [reflexivity|]. split; [intros rest; reflexivity|].
+    cbn [chars map]. rewrite vt_run_nil. cbn [length Z.of_nat]. rewrite Z.add_0_r.
     split; [exact Hsim|]. split; [exact Hcur|]. split; [reflexivity|]. split; [reflexivity|].
     intros y x. destruct ((y =? lc) && (c <=? x) && (x <? c)) eqn:E; [lia|reflexivity].
-  - rewrite <- Elen in *. exists (chars u). split.
-    { cbn [api_step]. destruct (Z.of_nat (length u) =? 0) eqn:E0; [lia|].
+  - set (u := c0 :: u') in *. exists (chars (UB.enc u)). split.
+    { pose proof (enc_nonempty c0 u') as Hne. fold u in Hne.
+      cbn [api_step]. destruct (Z.of_nat (length (UB.enc u)) =? 0) eqn:E0; [lia|].
       unfold drv_print, write_str_bytes. rewrite E0.
-      destruct ((0 <? Z.of_nat (length u)) && (Z.of_nat (length u) <=? Z.of_nat (length u))) eqn:E1; [|lia].
+      destruct ((0 <? Z.of_nat (length (UB.enc u))) && (Z.of_nat (length (UB.enc u)) <=? Z.of_nat (length (UB.enc u)))) eqn:E1; [|lia].
       rewrite Nat2Z.id, firstn_all. reflexivity. }
-    apply (print_vt colon rgb8 v t l pn u lc c Hsim Hcur Hpr Hc0); lia.
+    split; [intros rest; apply utf8_print; exact Hcp|].
+    apply (print_vt colon rgb8 v t l pn u lc c Hsim Hcur Hnd Hc0); [unfold u; cbn [length]; lia|exact Hfit].
 Qed.
 
 Lemma run_ech_n : forall v n, 1 <= n -> vt_run (if n =? 1 then [csi_0 88] else [csi_n n 88]) v = vt_ech v n.
@@ -347,7 +421,16 @@ Proof.
   - rewrite run_ech. destruct (n =? 0) eqn:B; [lia|reflexivity].
 Qed.
 
-Lemma forallb_printable_spaces : forall k, forallb printable (repeat 32 k) = true.
+Lemma ech_nochar : forall n (mv : bool),
+  nocharb ((if n =? 1 then [csi_0 88] else [csi_n n 88]) ++
+           match (if mv then MYes else MMaybe) with MYes => xt_move_rel 0 n | _ => [] end) = true.
+Proof.
+  intros n mv. unfold nocharb. rewrite forallb_app. destruct mv.
+  - fold (nocharb (xt_move_rel 0 n)). rewrite move_rel_nochar. destruct (n =? 1); reflexivity.
+  - destruct (n =? 1); reflexivity.
+Qed.
+
+Lemma forallb_notdel_spaces : forall k, forallb (fun b => negb (b =? 127)) (repeat 32 k) = true.
 Proof. induction k as [|k IH]; [reflexivity|]. cbn [repeat forallb]. rewrite IH. reflexivity. Qed.
 
 (* erasech: ECH (+ CUF) when the rendition is not in reverse video -- blanks that keep only the background --
@@ -359,9 +442,10 @@ Lemma sim_erase : forall colon rgb8 v t l pn n (mv : bool) lc c, SimInv colon rg
     SimInv colon rgb8 (vt_run toks v) t l pn /\
     cur_rel (vt_run toks v) (if mv then Some (lc, c + n) else None) /\
     v_lines (vt_run toks v) = v_lines v /\ v_cols (vt_run toks v) = v_cols v /\
-    forall y x, v_grid (vt_run toks v) y x =
+    (forall y x, v_grid (vt_run toks v) y x =
                 if (y =? lc) && (c <=? x) && (x <? c + n)
-                then (if a_reverse (v_sgr v) then mkCell 32 (v_sgr v) else blank v) else v_grid v y x.
+                then (if a_reverse (v_sgr v) then mkCell 32 (v_sgr v) else blank v) else v_grid v y x) /\
+    (forall rest, utf8_toks (toks ++ rest) = toks ++ utf8_toks rest).
 Proof.
   intros colon rgb8 v t l pn n mv lc c Hsim Hcur Hn Hc0 Hfit.
   destruct (Hsim) as (Hok & Hc1 & Hc2 & Hpi & Hsgr).
@@ -373,6 +457,7 @@ Proof.
   - (* count 0: nothing *)
     assert (n = 0) by lia. subst n. rewrite vt_run_nil, Z.add_0_r.
     split; [exact Hsim|]. split; [destruct mv; [exact Hcur|exact I]|]. split; [reflexivity|]. split; [reflexivity|].
+    split; [|intros rest; reflexivity].
     intros y x. destruct ((y =? lc) && (c <=? x) && (x <? c)) eqn:E; [lia|reflexivity].
   - destruct (a_reverse (v_sgr v)) eqn:Erv; cbn [negb].
     + (* reverse video: spaces *)
@@ -381,13 +466,15 @@ Proof.
         by (destruct mv; reflexivity).
       rewrite app_nil_r.
       destruct (print_vt colon rgb8 v t l pn (repeat 32 (Z.to_nat n)) lc c Hsim Hcur
-                  (forallb_printable_spaces _) Hc0) as (S1 & S2 & S3 & S4 & S5);
+                  (forallb_notdel_spaces _) Hc0) as (S1 & S2 & S3 & S4 & S5);
         try (rewrite repeat_length; lia).
       rewrite repeat_length, Z2Nat.id in * by lia.
       split; [exact S1|]. split; [destruct mv; [exact S2|exact I]|]. split; [exact S3|]. split; [exact S4|].
+      split; [|intros rest; apply utf8_spaces].
       intros y x. rewrite S5. destruct ((y =? lc) && (c <=? x) && (x <? c + n)) eqn:Ein; [|reflexivity].
       rewrite (nth_repeat_lt _ 32) by lia. reflexivity.
     + cbn [cur_rel] in Hcur. destruct Hcur as (Hrow & [(Hlt & Hcol & Hpend) | (Hge & _)]); [|lia].
+    pose proof (fun rest => utf8_nochar _ rest (ech_nochar n mv)) as Hu.
     rewrite vt_run_app, run_ech_n by lia.
     set (v1 := vt_ech v n).
     assert (Hg1 : forall y x, v_grid v1 y x = if (y =? lc) && (c <=? x) && (x <? c + n) then blank v else v_grid v y x).
@@ -415,10 +502,10 @@ Proof.
       split.
       { cbn [cur_rel]. unfold v1, vt_ech. vt_unfold. split; [reflexivity|].
         destruct (Z.eq_dec (c + n) (v_cols v)) as [E|E]; [right; lia|left; repeat split; lia]. }
-      split; [reflexivity|]. split; [reflexivity|]. intros y x. exact (Hg1 y x).
+      split; [reflexivity|]. split; [reflexivity|]. split; [intros y x; exact (Hg1 y x)|]. exact Hu.
     * rewrite vt_run_nil.
       split; [apply Hsim1; unfold v1, vt_ech; vt_unfold; try reflexivity; assumption|].
-      split; [exact I|]. split; [reflexivity|]. split; [reflexivity|]. exact Hg1.
+      split; [exact I|]. split; [reflexivity|]. split; [reflexivity|]. split; [exact Hg1|]. exact Hu.
 Qed.
 
 (* the recorded finding C09-erasech-rv-right-edge (trigger class [api_excl] / [erase_trigger]: reverse video,
@@ -455,49 +542,58 @@ Proof.
   rewrite (map_nth (fun x => FD.mkT [x] pn) u 0). reflexivity.
 Qed.
 
-(* ---- the simulation: a list of operations on which paint succeeds *)
+(* ---- the simulation: a list of operations on which paint succeeds.  [toks]: what the driver writes;
+   [dtoks]: what the UTF-8 front end makes of it (utf8_toks toks = dtoks: take rest = []) *)
 Theorem paint_on_vt : forall ops colon rgb8 v t l pn cur w cur' pen',
   SimInv colon rgb8 v t l pn -> cur_rel v cur ->
   Forall (fun o => termop_okb o = true) ops ->
   TS.paint (v_lines v) (v_cols v) cur pn ops = Some (w, cur', pen') ->
-  exists t' toks l',
+  exists t' toks dtoks l',
     api_run t (map api_of_termop ops) = Some (t', toks) /\
-    SimInv colon rgb8 (vt_run toks v) t' l' pen' /\ cur_rel (vt_run toks v) cur' /\
-    v_lines (vt_run toks v) = v_lines v /\ v_cols (vt_run toks v) = v_cols v /\
-    cells_rel colon rgb8 w v (vt_run toks v).
+    (forall rest, utf8_toks (toks ++ rest) = dtoks ++ utf8_toks rest) /\
+    SimInv colon rgb8 (vt_run dtoks v) t' l' pen' /\ cur_rel (vt_run dtoks v) cur' /\
+    v_lines (vt_run dtoks v) = v_lines v /\ v_cols (vt_run dtoks v) = v_cols v /\
+    cells_rel colon rgb8 w v (vt_run dtoks v).
 Proof.
   induction ops as [|o ops IH]; intros colon rgb8 v t l pn cur w cur' pen' Hsim Hcur Hok P; cbn [TS.paint] in P.
-  - inversion P; subst. exists t, [], l. cbn [map api_run]. rewrite vt_run_nil.
-    split; [reflexivity|]. split; [exact Hsim|]. split; [exact Hcur|]. split; [reflexivity|]. split; [reflexivity|].
+  - inversion P; subst. exists t, [], [], l. cbn [map api_run]. rewrite vt_run_nil.
+    split; [reflexivity|]. split; [intros rest; reflexivity|].
+    split; [exact Hsim|]. split; [exact Hcur|]. split; [reflexivity|]. split; [reflexivity|].
     apply cells_rel_nil. reflexivity.
   - inversion Hok as [|o' ops' Ho Hops]; subst.
     destruct o as [lg cg|p|u|n mv]; cbn [map api_of_termop api_run].
     + (* goto *)
       destruct ((0 <=? lg) && (lg <? v_lines v) && (0 <=? cg) && (cg <? v_cols v)) eqn:Ein; [|discriminate P].
-      destruct (sim_goto colon rgb8 v t l pn lg cg Hsim ltac:(lia) ltac:(lia)) as (toks & Hstep & Hsim1 & Hcur1 & E1 & E2 & Hg).
+      destruct (sim_goto colon rgb8 v t l pn lg cg Hsim ltac:(lia) ltac:(lia))
+        as (toks & Hstep & Hsim1 & Hcur1 & E1 & E2 & Hg & Hu).
       rewrite Hstep.
       rewrite <- E1, <- E2 in P.
-      destruct (IH colon rgb8 _ t l pn _ w cur' pen' Hsim1 Hcur1 Hops P) as (t' & toks2 & l' & Hrun & Hsim2 & Hcur2 & F1 & F2 & Hc2).
-      rewrite Hrun. exists t', (toks ++ toks2), l'. rewrite vt_run_app.
-      split; [reflexivity|]. split; [exact Hsim2|]. split; [exact Hcur2|].
+      destruct (IH colon rgb8 _ t l pn _ w cur' pen' Hsim1 Hcur1 Hops P)
+        as (t' & toks2 & dtoks2 & l' & Hrun & Hu2 & Hsim2 & Hcur2 & F1 & F2 & Hc2).
+      rewrite Hrun. exists t', (toks ++ toks2), (toks ++ dtoks2), l'. rewrite vt_run_app.
+      split; [reflexivity|]. split; [intros rest; rewrite <- !app_assoc, Hu, Hu2; reflexivity|].
+      split; [exact Hsim2|]. split; [exact Hcur2|].
       split; [congruence|]. split; [congruence|].
       apply (cells_rel_app colon rgb8 [] w v (vt_run toks v) _ E1 E2); [apply cells_rel_nil; exact Hg|exact Hc2].
     + (* setpen *)
       cbn [termop_okb] in Ho.
-      destruct (sim_setpen colon rgb8 v t l pn p Hsim Ho) as (t1 & toks & l1 & Hstep & Hsim1 & Ecur & E1 & E2 & Hg).
+      destruct (sim_setpen colon rgb8 v t l pn p Hsim Ho)
+        as (t1 & toks & l1 & Hstep & Hsim1 & Ecur & E1 & E2 & Hg & Hu).
       rewrite Hstep.
       assert (Hcur1 : cur_rel (vt_run toks v) cur).
       { destruct cur as [[lc c]|]; [|exact I]. cbn [cur_rel] in *. unfold row, col, pend in *. rewrite Ecur, E2. exact Hcur. }
       rewrite <- E1, <- E2 in P.
-      destruct (IH colon rgb8 _ t1 l1 _ _ w cur' pen' Hsim1 Hcur1 Hops P) as (t' & toks2 & l' & Hrun & Hsim2 & Hcur2 & F1 & F2 & Hc2).
-      rewrite Hrun. exists t', (toks ++ toks2), l'. rewrite vt_run_app.
-      split; [reflexivity|]. split; [exact Hsim2|]. split; [exact Hcur2|].
+      destruct (IH colon rgb8 _ t1 l1 _ _ w cur' pen' Hsim1 Hcur1 Hops P)
+        as (t' & toks2 & dtoks2 & l' & Hrun & Hu2 & Hsim2 & Hcur2 & F1 & F2 & Hc2).
+      rewrite Hrun. exists t', (toks ++ toks2), (toks ++ dtoks2), l'. rewrite vt_run_app.
+      split; [reflexivity|]. split; [intros rest; rewrite <- !app_assoc, Hu, Hu2; reflexivity|].
+      split; [exact Hsim2|]. split; [exact Hcur2|].
       split; [congruence|]. split; [congruence|].
       apply (cells_rel_app colon rgb8 [] w v (vt_run toks v) _ E1 E2); [apply cells_rel_nil; exact Hg|exact Hc2].
     + (* print *)
       cbn [termop_okb] in Ho.
       destruct cur as [[lc c]|]; [|discriminate P].
-      pose proof (printable_narrow u Ho) as Nu.
+      pose proof (uprintable_narrow u Ho) as Nu.
       destruct (RD.text_valid u && TS.starts_baseb u && (c + RD.text_width u <=? v_cols v)) eqn:Ec; [|discriminate P].
       assert (Hw : RD.text_width u = Z.of_nat (length u)).
       { rewrite Tickit.RBWidth.text_width_tw, (SH.tw_narrow u Nu). reflexivity. }
@@ -508,14 +604,16 @@ Proof.
       { cbn [cur_rel] in Hcur. destruct Hsim as (Hokv & _). destruct (vt_ok_parts v Hokv) as (_ & _ & _ & _ & _ & Hcc).
         destruct Hcur as (_ & [(A & B & _)|(A & B)]); lia. }
       destruct (sim_print colon rgb8 v t l pn u lc c Hsim Hcur Ho Hc0 ltac:(lia))
-        as (toks & Hstep & Hsim1 & Hcur1 & E1 & E2 & Hg).
+        as (toks & Hstep & Hu & Hsim1 & Hcur1 & E1 & E2 & Hg).
       rewrite Hstep.
       rewrite <- E1, <- E2 in P2.
-      destruct (IH colon rgb8 _ t l pn _ w2 e2 q2 Hsim1 Hcur1 Hops P2) as (t' & toks2 & l' & Hrun & Hsim2 & Hcur2 & F1 & F2 & Hc2).
-      rewrite Hrun. exists t', (toks ++ toks2), l'. rewrite vt_run_app.
-      split; [reflexivity|]. split; [exact Hsim2|]. split; [exact Hcur2|].
+      destruct (IH colon rgb8 _ t l pn _ w2 e2 q2 Hsim1 Hcur1 Hops P2)
+        as (t' & toks2 & dtoks2 & l' & Hrun & Hu2 & Hsim2 & Hcur2 & F1 & F2 & Hc2).
+      rewrite Hrun. exists t', (toks ++ toks2), (chars u ++ dtoks2), l'. rewrite vt_run_app.
+      split; [reflexivity|]. split; [intros rest; rewrite <- !app_assoc, Hu, Hu2; reflexivity|].
+      split; [exact Hsim2|]. split; [exact Hcur2|].
       split; [congruence|]. split; [congruence|].
-      apply (cells_rel_app colon rgb8 _ w2 v (vt_run toks v) _ E1 E2); [|exact Hc2].
+      apply (cells_rel_app colon rgb8 _ w2 v (vt_run (chars u) v) _ E1 E2); [|exact Hc2].
       intros y x Hy Hx. rewrite (SH.lay_narrow u Nu). rewrite written_rw, !map_length, Hg.
       destruct ((y =? lc) && (c <=? x) && (x <? c + Z.of_nat (length u))) eqn:Ein; [|reflexivity].
       rewrite TS.look_rw. unfold Tickit.RBAbsLemmas.zlen. rewrite !map_length, Ein.
@@ -531,12 +629,14 @@ Proof.
       { cbn [cur_rel] in Hcur. destruct Hsim as (Hokv & _). destruct (vt_ok_parts v Hokv) as (_ & _ & _ & _ & _ & Hcc).
         destruct Hcur as (_ & [(A & B & _)|(A & B)]); lia. }
       destruct (sim_erase colon rgb8 v t l pn n mv lc c Hsim Hcur ltac:(lia) Hc0 ltac:(lia))
-        as (toks & Hstep & Hsim1 & Hcur1 & E1 & E2 & Hg).
+        as (toks & Hstep & Hsim1 & Hcur1 & E1 & E2 & Hg & Hu).
       rewrite Hstep.
       rewrite <- E1, <- E2 in P2.
-      destruct (IH colon rgb8 _ t l pn _ w2 e2 q2 Hsim1 Hcur1 Hops P2) as (t' & toks2 & l' & Hrun & Hsim2 & Hcur2 & F1 & F2 & Hc2).
-      rewrite Hrun. exists t', (toks ++ toks2), l'. rewrite vt_run_app.
-      split; [reflexivity|]. split; [exact Hsim2|]. split; [exact Hcur2|].
+      destruct (IH colon rgb8 _ t l pn _ w2 e2 q2 Hsim1 Hcur1 Hops P2)
+        as (t' & toks2 & dtoks2 & l' & Hrun & Hu2 & Hsim2 & Hcur2 & F1 & F2 & Hc2).
+      rewrite Hrun. exists t', (toks ++ toks2), (toks ++ dtoks2), l'. rewrite vt_run_app.
+      split; [reflexivity|]. split; [intros rest; rewrite <- !app_assoc, Hu, Hu2; reflexivity|].
+      split; [exact Hsim2|]. split; [exact Hcur2|].
       split; [congruence|]. split; [congruence|].
       apply (cells_rel_app colon rgb8 _ w2 v (vt_run toks v) _ E1 E2); [|exact Hc2].
       intros y x Hy Hx. rewrite written_rw, repeat_length, Hg. rewrite Z2Nat.id by lia.
@@ -570,11 +670,11 @@ Theorem flush_on_vt : forall L C prog s r colon rgb8 v0 t0 l0 pn0 T0,
     (Forall (fun o => termop_okb o = true) ops ->
      exists t1 toks l1 pn1,
        api_run t0 (map api_of_termop ops) = Some (t1, toks) /\
-       SimInv colon rgb8 (vt_run toks v0) t1 l1 pn1 /\
+       SimInv colon rgb8 (vt_run_utf8 toks v0) t1 l1 pn1 /\
        forall y x, 0 <= y < v_lines v0 -> 0 <= x < v_cols v0 ->
          if written w (y, x)
-         then wrel colon rgb8 (v_grid (vt_run toks v0) y x) (TS.tcellat T1 y x)
-         else v_grid (vt_run toks v0) y x = v_grid v0 y x /\ TS.tcellat T1 y x = TS.tcellat T0 y x).
+         then wrel colon rgb8 (v_grid (vt_run_utf8 toks v0) y x) (TS.tcellat T1 y x)
+         else v_grid (vt_run_utf8 toks v0) y x = v_grid v0 y x /\ TS.tcellat T1 y x = TS.tcellat T0 y x).
 Proof.
   intros L C prog s r colon rgb8 v0 t0 l0 pn0 T0 HL HC Ho E Hsim (HT & TL & TC & Tp) HLv HCv.
   destruct (Tickit.FlushPaint.flush_paint_reachable L C prog s r T0 HL HC Ho E HT ltac:(lia) ltac:(lia))
@@ -582,8 +682,10 @@ Proof.
   exists ops, T1, w. split; [exact Ef|]. split; [exact Et|]. split; [exact Gm|].
   intros Hops. rewrite TL, TC, Tp in P.
   destruct (paint_on_vt ops colon rgb8 v0 t0 l0 pn0 None w cur' pn' Hsim I Hops P)
-    as (t1 & toks & l1 & Hrun & Hsim1 & _ & _ & _ & Hcells).
-  exists t1, toks, l1, pn'. split; [exact Hrun|]. split; [exact Hsim1|].
+    as (t1 & toks & dtoks & l1 & Hrun & Hu & Hsim1 & _ & _ & _ & Hcells).
+  assert (Hd : utf8_toks toks = dtoks).
+  { specialize (Hu []). rewrite !app_nil_r in Hu. exact Hu. }
+  exists t1, toks, l1, pn'. unfold vt_run_utf8. rewrite Hd. split; [exact Hrun|]. split; [exact Hsim1|].
   intros y x Hy Hx. specialize (Hcells y x Hy Hx). rewrite (Gl y x) by (rewrite ?TL, ?TC; assumption).
   destruct (written w (y, x)) eqn:W.
   - rewrite (look_written_indep w (y, x) _ FS.dtc W). exact Hcells.
